@@ -169,6 +169,8 @@ pub fn check_program(prog: &Program, seed: u64, thorough: bool, small: bool, rep
 }
 
 pub fn run(p: &Params, rep: &mut Report) {
+    let stride = 1;
+    for_tiny_programs(p, rep, stride, p.size(150, 3000), |prog, seed, rep| check_program(prog, seed, p.thorough, true, rep));
     let n = p.size(30, 300);
     for_programs(p, rep, 19, n, &STD_WEIGHTS, (15, 40), |prog, seed, rep| check_program(prog, seed, p.thorough, false, rep));
     // bounded-progress restatement of termination on the calibrated small profile
